@@ -53,14 +53,18 @@ func logTail(n int) []string {
 
 func e2eKnobs() {
 	e2eKnobsOnce.Do(func() {
+		logLevel := logging.LvlDebug
+		if os.Getenv("VERIF_C18_LOGTAIL") != "" {
+			logLevel = logging.LvlTrace
+		}
 		logging.Root().SetHandler(logging.FuncHandler(func(r *logging.Record) error {
-			if r.Lvl > logging.LvlDebug {
+			if r.Lvl > logLevel || r.Msg == "Peer throughput measurements updated" {
 				return nil
 			}
 			logRing.mu.Lock()
-			logRing.msgs = append(logRing.msgs, fmt.Sprintf("%s %v", r.Msg, r.Ctx))
-			if len(logRing.msgs) > 400 {
-				logRing.msgs = append([]string(nil), logRing.msgs[200:]...)
+			logRing.msgs = append(logRing.msgs, fmt.Sprintf("%s %s %v", r.Time.Format("05.000"), r.Msg, r.Ctx))
+			if len(logRing.msgs) > 800 {
+				logRing.msgs = append([]string(nil), logRing.msgs[400:]...)
 			}
 			logRing.mu.Unlock()
 			return nil
@@ -71,7 +75,7 @@ func e2eKnobs() {
 		downloader.VerifSetCacheLimits(64, 0)
 		downloader.VerifSetMaxResultsProcess(20)
 		downloader.VerifSetProcessLimits(40, 0)
-		downloader.VerifSetTimings(20*time.Millisecond, 400*time.Millisecond, 1500*time.Millisecond, 20*time.Millisecond)
+		downloader.VerifSetTimings(400*time.Millisecond, 500*time.Millisecond, 1500*time.Millisecond, 20*time.Millisecond)
 	})
 }
 
@@ -214,11 +218,22 @@ type e2eHarness struct {
 	d       *downloader.Downloader
 	rec     *recChain
 	faults  int32 // 1 while the script injects faults
+	maxLat  int64 // diagnostics: slowest handler entry -> delivery handed over, in ns (notes only)
 	master  atomic.Value
 	peers   []*e2ePeer
 	mu      sync.Mutex
 	dropped map[string]bool
 	counts  map[string]int
+}
+
+func (h *e2eHarness) lat(t0 time.Time) {
+	d := int64(time.Since(t0))
+	for {
+		o := atomic.LoadInt64(&h.maxLat)
+		if d <= o || atomic.CompareAndSwapInt64(&h.maxLat, o, d) {
+			return
+		}
+	}
 }
 
 func (h *e2eHarness) count(k string) {
@@ -269,6 +284,8 @@ func (p *e2ePeer) RequestHeadersByHash(origin common.Hash, amount int, skip int,
 }
 
 func (p *e2ePeer) RequestHeadersByNumber(origin uint64, amount int, skip int, reverse, light bool) error {
+	t0 := time.Now()
+	logging.Trace("scripted peer: header request received", "peer", p.id, "origin", origin, "amount", amount, "skip", skip)
 	var hdrs []*types.Header
 	n := origin
 	for len(hdrs) < amount {
@@ -325,7 +342,9 @@ func (p *e2ePeer) RequestHeadersByNumber(origin uint64, amount int, skip int, re
 		}
 	}
 	p.h.count("hdr_resp")
-	return p.h.d.DeliverHeaders(p.id, hdrs)
+	err := p.h.d.DeliverHeaders(p.id, hdrs)
+	p.h.lat(t0)
+	return err
 }
 
 func (p *e2ePeer) RequestBodies(hashes []common.Hash) error {
@@ -379,7 +398,11 @@ func (p *e2ePeer) RequestBodies(hashes []common.Hash) error {
 		time.Sleep(time.Duration(delay) * time.Millisecond)
 	}
 	p.h.count("body_resp_" + respNames[kind])
+	t0 := time.Now()
 	err := p.h.d.DeliverBodies(p.id, bodies)
+	if delay == 0 {
+		p.h.lat(t0)
+	}
 	if dup {
 		p.h.count("body_resp_duplicate")
 		go func() {
@@ -452,6 +475,41 @@ func (h *e2eHarness) sync(p *e2ePeer, cut time.Duration) (kind string, ok bool) 
 		}
 		return "watchdog", false
 	}
+}
+
+// stallMon measures how badly this process is being starved (environment health, not an oracle):
+// a goroutine sleeps 20 ms at a time and records its worst oversleep. It decides only between
+// "violation" and "inconclusive" for the time-dependent completeness check.
+type stallMon struct {
+	worst int64
+	stop  chan struct{}
+}
+
+func newStallMon() *stallMon {
+	m := &stallMon{stop: make(chan struct{})}
+	go func() {
+		for {
+			t := time.Now()
+			select {
+			case <-m.stop:
+				return
+			case <-time.After(20 * time.Millisecond):
+			}
+			if over := int64(time.Since(t) - 20*time.Millisecond); over > atomic.LoadInt64(&m.worst) {
+				atomic.StoreInt64(&m.worst, over)
+			}
+		}
+	}()
+	return m
+}
+
+func (m *stallMon) worstStall() time.Duration { return time.Duration(atomic.LoadInt64(&m.worst)) }
+
+func e2eLogTail() int {
+	if v, err := strconv.Atoi(os.Getenv("VERIF_C18_LOGTAIL")); err == nil && v > 0 {
+		return v
+	}
+	return 40
 }
 
 func e2eWatchdog() time.Duration {
@@ -612,8 +670,11 @@ func runE2ECase(c *kit.Ctx, id string) {
 		h.peers = append(h.peers, ep)
 		h.register(ep)
 	}
+	mon := newStallMon()
+	defer close(mon.stop)
 	var outcomes []string
 	finish := func(sig string) {
+		c.Max("max_e2e_process_stall_ms", int64(mon.worstStall()/time.Millisecond))
 		keys := make([]string, 0, len(h.counts))
 		h.mu.Lock()
 		for k := range h.counts {
@@ -686,7 +747,7 @@ func runE2ECase(c *kit.Ctx, id string) {
 	hp := h.peers[sp.Honest]
 	sawTimeout := false
 	attempts := 0
-	for rec.height() < len(ch.hdrs) && attempts < 3 {
+	for rec.height() < len(ch.hdrs) && attempts < 4 {
 		attempts++
 		if h.isDropped(hp.id) {
 			h.register(hp)
@@ -702,11 +763,11 @@ func runE2ECase(c *kit.Ctx, id string) {
 		}
 		outcomes = append(outcomes, "honest:"+kind)
 		if kind != "ok" {
-			c.Note(fmt.Sprintf("%s: honest sync attempt %d ended with %q (spec %+v, outcomes %v); downloader log tail: %q", id, attempts, kind, sp, outcomes, logTail(30)))
+			c.Note(fmt.Sprintf("%s: honest sync attempt %d ended with %q (spec %+v, outcomes %v); slowest scripted answer (handler entry to hand-over) %v, worst scheduling stall of this process %v; downloader log tail: %q", id, attempts, kind, sp, outcomes, time.Duration(atomic.LoadInt64(&h.maxLat)), mon.worstStall(), logTail(e2eLogTail())))
 		}
 		c.Count("e2e_honest_sync_"+kind, 1)
-		if kind == "timeout" || kind == "stalling-peer" {
-			sawTimeout = true
+		if kind != "ok" {
+			sawTimeout = true // every failure kind of an all-honest sync observed so far was a (converted) request timeout
 		}
 		if !checkImporter("after honest sync attempt") {
 			finish("violated")
@@ -716,9 +777,9 @@ func runE2ECase(c *kit.Ctx, id string) {
 	c.Count("e2e_honest_attempts", attempts)
 	c.Evals(1)
 	if got := rec.height(); got < len(ch.hdrs) {
-		if sawTimeout {
+		if st := mon.worstStall(); sawTimeout && st > 300*time.Millisecond {
 			finish("")
-			c.EndInconclusive(fmt.Sprintf("honest syncs timed out (machine load?): %v", outcomes))
+			c.EndInconclusive(fmt.Sprintf("honest syncs failed while this process was being starved (worst scheduling stall %v): %v", st, outcomes))
 			return
 		}
 		c.Violation("e2e-incomplete-without-faults", fmt.Sprintf("faults stopped and an honest master with the full chain was synced %d times, yet only %d of %d blocks reached the importer: %v", attempts, got, len(ch.hdrs), outcomes), map[string]interface{}{"spec": sp, "sync_outcomes": outcomes})
